@@ -425,13 +425,24 @@ func runCase(c Case) vh.Record {
 		rt := newRT()
 		callJSON(rt, "table", &tabs[i], unitsArg(p), baseFlags(c.Flags), unitsArg(c.Subj))
 	}
-	tabTerm := func(t jtab) string {
+	// distinct table entries + index lists (identical rendered terms are identical terms)
+	var ents []string
+	entIdx := map[string]int{}
+	tabIdx := func(t jtab) string {
 		parts := make([]string, len(t.Tab))
 		for i, e := range t.Tab {
-			parts[i] = coqM(e.M, e.R)
+			s := coqM(e.M, e.R)
+			k, ok := entIdx[s]
+			if !ok {
+				k = len(ents)
+				entIdx[s] = k
+				ents = append(ents, s)
+			}
+			parts[i] = fmt.Sprint(k)
 		}
-		return "[" + strings.Join(parts, ";") + "]"
+		return "[" + strings.Join(parts, ";") + "]%nat"
 	}
+	iA, iB := tabIdx(tabs[0]), tabIdx(tabs[1])
 	eng := func(s string) string {
 		if strings.HasPrefix(s, "re2") {
 			return "RE2"
@@ -453,18 +464,30 @@ func runCase(c Case) vh.Record {
 		ops[i] = coqOp(o)
 		tags["op:"+o.O] = true
 	}
-	obsTerms := make([]string, 4)
+	var obsd []string
+	obsIdx := map[string]int{}
+	oi := make([]string, 4)
 	for i := range obs {
 		parts := make([]string, len(obs[i].Ops))
 		for j, o := range obs[i].Ops {
 			parts[j] = coqObs(o)
 		}
-		obsTerms[i] = "[" + strings.Join(parts, ";") + "]"
+		s := "[" + strings.Join(parts, ";") + "]"
+		k, ok := obsIdx[s]
+		if !ok {
+			k = len(obsd)
+			obsIdx[s] = k
+			obsd = append(obsd, s)
+		}
+		oi[i] = fmt.Sprint(k)
 	}
-	term := fmt.Sprintf("CRun %s %d%%N [%s] %s %s [%s] %s %s %s %s [%s]",
+	if len(obsd) > 1 {
+		tags["configs-differ"] = true
+	}
+	term := fmt.Sprintf("CRun %s %d%%N [%s] %s %s [%s] %s %s [%s] %s %s [%s] [%s]%%nat",
 		coqFlags(c.Flags), c.NCap, strings.Join(names, ";"), coqStr16(c.Subj), vh.CoqZ(int64(c.Start)),
-		strings.Join(ops, ";"), eng(obs[0].Eng), eng(obs[2].Eng), tabTerm(tabs[0]), tabTerm(tabs[1]),
-		strings.Join(obsTerms, ";"))
+		strings.Join(ops, ";"), eng(obs[0].Eng), eng(obs[2].Eng), strings.Join(ents, ";"), iA, iB,
+		strings.Join(obsd, ";"), strings.Join(oi, ";"))
 	// coverage
 	tags["engineA:"+obs[0].Eng] = true
 	tags["engineB:"+obs[2].Eng] = true
